@@ -842,14 +842,68 @@ def d_skip(m, cfg, f, args, t):
     return ok(UNIT)
 
 
+def initial_bytes(it):
+    """the set of initial bytes an abstract item can start with (any head width; RFC 8949 section 3)"""
+    k = it[0]
+
+    def heads(major, arg=None):
+        base = major << 5
+        if isinstance(arg, Int) and arg.is_const() and 0 <= arg.c <= 23:
+            return ((base + arg.c, base + arg.c), (base + 24, base + 27))
+        if isinstance(arg, Int) and arg.is_const():
+            return ((base + 24, base + 27),)
+        return ((base, base + 27),)
+    if k == 'INT':
+        v = it[2] if len(it) > 2 else None
+        if isinstance(v, Int) and v.is_const():
+            return heads(0, v) if v.c >= 0 else heads(1, Int.const(-1 - v.c))
+        return ((0x00, 0x1b), (0x20, 0x3b))
+    if k == 'BOOL':
+        return ((0xf4, 0xf5),)
+    if k == 'NULL':
+        return ((0xf6, 0xf6),)
+    if k == 'UNDEF':
+        return ((0xf7, 0xf7),)
+    if k == 'SIMPLE':
+        return ((0xe0, 0xf3), (0xf8, 0xf8))
+    if k in ('F16', 'F32', 'F64'):
+        b = {'F16': 0xf9, 'F32': 0xfa, 'F64': 0xfb}[k]
+        return ((b, b),)
+    if k == 'CHAR':
+        return ((0x00, 0x1b),)
+    if k == 'BYTES':
+        return ((0x40, 0x5b),)
+    if k == 'STR':
+        return ((0x60, 0x7b),)
+    if k == 'ARRAY':
+        return heads(4, it[1])
+    if k == 'MAP':
+        return heads(5, it[1])
+    if k == 'TAG':
+        return heads(6, it[1])
+    if k == 'BEGIN':
+        b = {'bytes': 0x5f, 'str': 0x7f, 'array': 0x9f, 'map': 0xbf}.get(it[1])
+        return ((b, b),) if b is not None else ((0, 0xfe),)
+    if k == 'BREAK':
+        return ((0xff, 0xff),)
+    return ((0, 0xfe),)      # an opaque leaf: any complete item, i.e. anything but a break
+
+
 def d_current(m, cfg, f, args, t):
+    """Deserializer::current at item level: the initial byte of the next item, as a symbol ranging over every head the item can
+    have (so that code comparing it with constants is explored on both sides)"""
     st = cfg.st
     e = peek_item(st)
     if e is None:
         return eoi(m)
-    if e[0] == 'ITEM' and e[1] == 'BREAK':
-        return ok(Int.const(0xff))
-    return ok(Int.const(0))
+    rng = initial_bytes(e[1:]) if e[0] == 'ITEM' else ((0, 0xfe),)
+    if len(rng) == 1 and rng[0][0] == rng[0][1]:
+        return ok(Int.const(rng[0][0]))
+    nm = 'ib@%d' % cur(st)
+    if nm not in st.ranges:
+        st.ranges[nm] = rng
+        st.symty[nm] = 'u8'
+    return ok(Int.sym(nm))
 
 
 def d_read(m, cfg, f, args, t):
